@@ -13,8 +13,11 @@ def census(cache):
     for dp, _dn, fn in os.walk(root):
         for f in fn:
             p = os.path.join(dp, f)
-            with open(p, "rb") as fh:
-                b = fh.read()
+            try:
+                with open(p, "rb") as fh:
+                    b = fh.read()
+            except OSError:
+                b = b"<unreadable: dangling link>"
             st = os.lstat(p)
             out[os.path.relpath(p, cache)] = (len(b), hashlib.sha256(b).hexdigest(), st.st_ino)
     return out
@@ -42,7 +45,8 @@ def run(ctx):
     nh = 200 if ctx.quick else 3000
     ctx.rule = ("history = 15-40 writes of 2-4 byte strings (incl. empty) under all five algorithms, same key / other "
                 "keys / by address, one-shot and streamed entry points, all modes, also after remove_hash and interleaved "
-                "with REFUSED re-writes of stored bytes (wrong declared size / integrity); after "
+                "with REFUSED re-writes of stored bytes (wrong declared size / integrity) and with re-stores over a copy that was "
+                "damaged in the meantime (flipped bit, torn, emptied, dangling link); after "
                 "EVERY write a census of content-v2 (path, length, sha256, inode) is compared with the expected set "
                 "{<algo>/<hex digest of data>}; sha* digests vs hashlib; xxh3 for determinism; afterwards the copy "
                 "under one algorithm is damaged and the entries under the other algorithms must still verify. "
@@ -117,6 +121,28 @@ def run(ctx):
                                   {"steps": steps[-12:], "response": rr, "missing": missing[:3], "extra": extra[:3], "changed": changed[:3]})
                     ok = False
                     break
+            if dup and algo != "xxh3" and rng.random() < 0.12:
+                # the stored copy has suffered in the meantime (bit rot, a torn or emptied file, a stale link): storing the
+                # bytes again must leave exactly one copy, and it must hold the bytes
+                a9, hx9 = ref.sri_address(written[(algo, data)])
+                cp9 = os.path.join(cache, ref.content_rel(a9, hx9))
+                kind9 = rng.choice(["flip", "truncate", "empty", "dangling-symlink"]) if data else "dangling-symlink"
+                try:
+                    os.unlink(cp9)
+                except OSError:
+                    pass
+                if kind9 == "flip":
+                    b9 = bytearray(data)
+                    b9[rng.randrange(len(b9))] ^= 0x10
+                    open(cp9, "wb").write(bytes(b9))
+                elif kind9 == "truncate":
+                    open(cp9, "wb").write(data[:len(data) // 2])
+                elif kind9 == "empty":
+                    open(cp9, "wb").close()
+                else:
+                    os.symlink(os.path.join(cache, "gone"), cp9)
+                steps.append(["harness", {"damage_stored_copy": kind9, "path": os.path.relpath(cp9, cache)}])
+                ctx.count(f"restores_over_damaged_copy[{kind9}]")
             before = census(cache)
             req = make_req(ctx, rng, cache, ep, algo, key, data)
             steps.append([mode, req])
